@@ -3,6 +3,7 @@
 package tracer
 
 import (
+	"bytes"
 	"context"
 	"errors"
 	"fmt"
@@ -91,6 +92,44 @@ func VerifBodyEvents(tr Trace) []string {
 		}
 	}
 	return out
+}
+
+// verifArray is the ONE array a scripted caller owns for its Reads (or Writes) — the discipline of
+// bufio.Reader / bufio.Writer and of handlers with a fixed buffer.  Before every call the whole
+// array is overwritten with a canary that changes from call to call (what the caller's next use
+// does to the previous call's bytes); the slice handed to the wrapper has spare capacity; after
+// the call the caller looks at the whole array.
+type verifArray struct {
+	b     []byte
+	calls int
+	viol  string
+}
+
+func newVerifArray(n int) *verifArray { return &verifArray{b: make([]byte, n+8)} }
+
+// The canaries have neither bit of 0x82 set: should a tracer under test ever read one as the flags
+// byte of an envelope, it is not an end-stream message, for which the tracer pre-allocates the
+// declared length (four canary bytes declare up to a gigabyte).
+func (a *verifArray) canary() byte { return [...]byte{0x41, 0x01, 0x24, 0x05, 0x11}[a.calls%5] }
+
+// next refills the array and returns the slice of length n (capacity: the rest of the array)
+func (a *verifArray) next(n int) []byte {
+	a.calls++
+	c := a.canary()
+	for i := range a.b {
+		a.b[i] = c
+	}
+	return a.b[:n]
+}
+
+// check: everything behind the first n bytes still is the canary
+func (a *verifArray) check(what string, n int) {
+	c := a.canary()
+	for i := n; i < len(a.b); i++ {
+		if a.b[i] != c && a.viol == "" {
+			a.viol = fmt.Sprintf("%s %d: the caller's array was modified beyond the %d bytes of the call (offset %d)", what, a.calls, n, i)
+		}
+	}
 }
 
 // VerifStep is one result of the scripted inner reader / writer.
@@ -182,6 +221,7 @@ type VerifReaderOut struct {
 	Done        int         `json:"done"`        // whenDone calls (response side)
 	Closes      int         `json:"closes"`      // Close calls that reached the inner reader
 	CloseSeen   []string    `json:"closeSeen"`   // error classes the caller got from Close
+	BufViol     string      `json:"bufViol"`     // "" or: how the caller found its array modified outside buf[:n]
 }
 
 // VerifTraceReader drives the real tracing reader — newRequestReader for the request side,
@@ -198,20 +238,20 @@ func VerifTraceReader(isRequest, client bool, headers http.Header, inner *VerifS
 	} else {
 		rd = newReader(headers, inner, false, bld, func() { out.Done++ })
 	}
-	buf := make([]byte, bufSize)
+	arr := newVerifArray(bufSize)
 	for _, a := range actions {
 		switch a {
 		case "r":
-			for i := range buf {
-				buf[i] = 0 // stale bytes beyond n must never be looked at
-			}
+			buf := arr.next(bufSize) // stale bytes beyond n must never be looked at, nothing may be kept or written
 			n, err := rd.Read(buf)
+			arr.check("Read", n)
 			out.Seen = append(out.Seen, VerifStep{fmt.Sprintf("%x", buf[:n]), VerifErrClass(err)})
 		case "c":
 			out.CloseSeen = append(out.CloseSeen, VerifErrClass(rd.Close()))
 		}
 	}
 	bld.build()
+	out.BufViol = arr.viol
 	out.Completions = coll.Count()
 	out.Events = []string{}
 	if len(coll.Traces) > 0 {
@@ -320,6 +360,7 @@ type VerifHandlerOut struct {
 	FinalHeader []string    `json:"finalHeader"`
 	Flushes     int         `json:"flushes"`
 	Panicked    bool        `json:"panicked"`
+	BufViol     string      `json:"bufViol"` // "" or: how the handler found one of its two arrays modified
 }
 
 // VerifServeHandler runs a scripted handler against a scripted ResponseWriter and request body,
@@ -332,12 +373,20 @@ func VerifServeHandler(traced bool, reqHeaders http.Header, body *VerifScriptRea
 	defer cancel()
 	req := verifRequest(reqHeaders).WithContext(ctx)
 	req.Body = body
+	maxW := 0
+	for _, a := range actions {
+		if a.Kind == "w" && len(a.Data)/2 > maxW {
+			maxW = len(a.Data) / 2
+		}
+	}
+	rarr, warr := newVerifArray(1<<12), newVerifArray(maxW)
 	handler := http.HandlerFunc(func(w http.ResponseWriter, r *http.Request) {
-		buf := make([]byte, 1<<12)
 		for _, a := range actions {
 			switch a.Kind {
 			case "read":
+				buf := rarr.next(1 << 12)
 				n, err := r.Body.Read(buf)
+				rarr.check("request Read", n)
 				out.Saw = append(out.Saw, fmt.Sprintf("r:%x:%s", buf[:n], VerifErrClass(err)))
 			case "closeReq":
 				out.Saw = append(out.Saw, "c:"+VerifErrClass(r.Body.Close()))
@@ -345,7 +394,13 @@ func VerifServeHandler(traced bool, reqHeaders http.Header, body *VerifScriptRea
 				w.WriteHeader(a.Status)
 			case "w":
 				data, _ := hexDecode(a.Data)
-				n, err := w.Write(data)
+				arg := warr.next(len(data)) // the handler's one write buffer, refilled for every Write
+				copy(arg, data)
+				n, err := w.Write(arg)
+				warr.check("response Write", len(data))
+				if !bytes.Equal(arg, data) && warr.viol == "" {
+					warr.viol = fmt.Sprintf("response Write %d: the argument was modified", warr.calls)
+				}
 				out.Saw = append(out.Saw, fmt.Sprintf("w:%d:%s", n, VerifErrClass(err)))
 			case "flush":
 				if f, ok := w.(http.Flusher); ok {
@@ -403,6 +458,10 @@ func VerifServeHandler(traced bool, reqHeaders http.Header, body *VerifScriptRea
 	}
 	out.FinalHeader = verifDumpHeader(rw.h)
 	out.Flushes = rw.flushes
+	out.BufViol = rarr.viol
+	if out.BufViol == "" {
+		out.BufViol = warr.viol
+	}
 	return out
 }
 
@@ -433,6 +492,7 @@ type VerifRoundTripOut struct {
 	RespHeader   []string    `json:"respHeader"` // response headers the caller saw
 	ReqCloses    int         `json:"reqCloses"`
 	CloseSeen    []string    `json:"closeSeen"`
+	BufViol      string      `json:"bufViol"` // "" or: how the transport / the caller found its array modified
 }
 
 // VerifRoundTrip drives the real TracingRoundTripper over a fake transport that reads the
@@ -440,10 +500,12 @@ type VerifRoundTripOut struct {
 func VerifRoundTrip(reqHeaders http.Header, reqBody *VerifScriptReader, fail bool, status int, respHeaders http.Header, respBody *VerifScriptReader, actions []string) VerifRoundTripOut {
 	var out VerifRoundTripOut
 	coll := &VerifCollector{}
+	tarr, carr := newVerifArray(1<<12), newVerifArray(1<<12)
 	transport := roundTripperFunc(func(req *http.Request) (*http.Response, error) {
-		buf := make([]byte, 1<<12)
 		for {
+			buf := tarr.next(1 << 12)
 			n, err := req.Body.Read(buf)
+			tarr.check("request Read", n)
 			out.TransportSaw = append(out.TransportSaw, VerifStep{fmt.Sprintf("%x", buf[:n]), VerifErrClass(err)})
 			if err != nil {
 				break
@@ -470,11 +532,12 @@ func VerifRoundTrip(reqHeaders http.Header, reqBody *VerifScriptReader, fail boo
 	if resp != nil {
 		out.Status = resp.StatusCode
 		out.RespHeader = verifDumpHeader(resp.Header)
-		buf := make([]byte, 1<<12)
 		for _, a := range actions {
 			switch a {
 			case "r":
+				buf := carr.next(1 << 12)
 				n, err := resp.Body.Read(buf)
+				carr.check("response Read", n)
 				out.CallerSaw = append(out.CallerSaw, VerifStep{fmt.Sprintf("%x", buf[:n]), VerifErrClass(err)})
 			case "c":
 				out.CloseSeen = append(out.CloseSeen, VerifErrClass(resp.Body.Close()))
@@ -496,6 +559,10 @@ func VerifRoundTrip(reqHeaders http.Header, reqBody *VerifScriptReader, fail boo
 	out.Events = []string{}
 	if len(coll.Traces) > 0 {
 		out.Events = VerifBodyEvents(coll.Traces[0])
+	}
+	out.BufViol = tarr.viol
+	if out.BufViol == "" {
+		out.BufViol = carr.viol
 	}
 	out.ReqInner, out.ReqCloses = reqBody.Log, reqBody.Closes
 	if respBody != nil {
